@@ -239,6 +239,42 @@ func genC13() {
 			str("validate_home_prefix", be.X, "Validate's default home prefix")
 		}
 	}
+	// the order of the filesystem-shaping steps of buildImage (after the packages are installed)
+	const bi = "pkg/build/build_implementation.go"
+	if fd := findFunc(bi, "Context", "buildImage"); fd == nil {
+		fail("%s: buildImage not found", bi)
+	} else {
+		known := map[string]bool{"mutateAccounts": true, "WriteEtcApkoConfig": true, "mutatePaths": true, "WriteSupervisionTree": true, "installBusyboxLinks": true, "installCharDevices": true}
+		var steps []string
+		seen := map[string]int{}
+		ast.Inspect(fd, func(n ast.Node) bool {
+			c, ok := n.(*ast.CallExpr)
+			if !ok {
+				return true
+			}
+			name := ""
+			switch f := c.Fun.(type) {
+			case *ast.SelectorExpr:
+				name = f.Sel.Name
+			case *ast.Ident:
+				name = f.Name
+			}
+			if known[name] {
+				steps = append(steps, coqStr(name))
+				seen[name]++
+			}
+			return true
+		})
+		for _, must := range []string{"mutateAccounts", "mutatePaths", "WriteEtcApkoConfig"} {
+			if seen[must] != 1 {
+				fail("%s: buildImage calls %s %d times (expected once)", bi, must, seen[must])
+			}
+		}
+		g.def("build_image_steps", "list string", "["+c13JoinSemi(steps)+"]", "calls of buildImage in source order at "+g.pos(fd))
+	}
+	wc := findFunc(bi, "Context", "WriteEtcApkoConfig")
+	str("apko_config_path", c13CallArg(wc, bi+":WriteEtcApkoConfig", "Create", 0), "file written by WriteEtcApkoConfig")
+	num("apko_config_perm", c13CallArg(wc, bi+":WriteEtcApkoConfig", "Chmod", 1), "mode of etc/apko.json")
 	g.write()
 }
 
